@@ -91,3 +91,22 @@ pub fn anyhow_fmt(_e: &anyhow::Error, _f: &mut core::fmt::Formatter<'_>) -> core
 pub fn backtrace_fmt(_b: &std::backtrace::Backtrace, _f: &mut core::fmt::Formatter<'_>) -> core::fmt::Result {
     Ok(())
 }
+
+/// `blake3::hash` (runtime CPU feature detection = inline asm) -> the BLAKE3 hash of the EMPTY input,
+/// which is the only input it is called with on the harness paths (`Fingerprint::empty()`); any
+/// other input is flagged.
+pub fn blake3_hash_empty(input: &[u8]) -> blake3::Hash {
+    #[cfg(kani)]
+    kani::assert(input.is_empty(), "blake3::hash stub called with non-empty input");
+    blake3::Hash::from_bytes([
+        175, 19, 73, 185, 245, 249, 161, 166, 160, 64, 77, 234, 54, 220, 201, 73, 155, 203, 37, 201, 173, 193, 18, 183, 204, 154, 147,
+        202, 228, 31, 50, 98,
+    ])
+}
+
+/// `std::panic::catch_unwind` -> run the closure directly (Kani aborts on panic anyway; the
+/// `catch_unwind` intrinsic makes kani-compiler 0.68 ICE).  Reached through the drop glue of
+/// `std::thread::JoinHandle` (inside `SyncHandle`).
+pub unsafe fn catch_unwind_direct<R, F: FnOnce() -> R>(f: F) -> Result<R, Box<dyn std::any::Any + Send>> {
+    Ok(f())
+}
